@@ -475,6 +475,7 @@ func runC32(c *Ctx) error {
 	c32traverseWitness(c)
 	c32lenAfterEmptyWitness(c, false)
 	c32lenAfterEmptyWitness(c, true)
+	c32closeVsInflightWriter(c)
 	return nil
 }
 
@@ -834,5 +835,75 @@ func c32lenAfterEmptyWitness(c *Ctx, useClose bool) {
 	if ln, keys := m.Len(), len(m.Map()); ln != keys {
 		c.Violation("C32:len-after-empty-or-close", fmt.Sprintf("SetValue stored its key, %s() ran, SetValue then added 1 to the length: at quiescence Len()=%d, Map() has %d keys", what, ln, keys),
 			map[string]interface{}{"schedule": "SetValue: leaf step done; " + what + "(); SetValue: length += 1"})
+	}
+}
+
+// a leaf that parks its caller BEFORE the leaf operation: the sharded map has handed the shard out already
+type c32parkingLeaf struct {
+	util.LockedMap[uint64, uint64]
+	before func()
+}
+
+func (g *c32parkingLeaf) SetValue(k, v uint64) bool {
+	g.before()
+	return g.LockedMap.SetValue(k, v)
+}
+
+func (g *c32parkingLeaf) GetOrCreate(k uint64, f func(uint64, bool) error, create func() (uint64, error)) error {
+	g.before()
+	return g.LockedMap.GetOrCreate(k, f, create)
+}
+
+// Close() runs to completion while a writer holds its shard but has not entered it yet: the write, arriving after
+// Close returned, must be refused like every write to a closed map, and the closed map stays empty
+func c32closeVsInflightWriter(c *Ctx) {
+	for _, deep := range []bool{false, true} {
+		for _, op := range []string{"SetValue", "GetOrCreate"} {
+			entered := make(chan struct{})
+			resume := make(chan struct{})
+			var once sync.Once
+			newLeaf := func() util.LockedMap[uint64, uint64] {
+				return &c32parkingLeaf{LockedMap: util.NewSingleLockedMap[uint64, uint64](), before: func() {
+					once.Do(func() { close(entered); <-resume })
+				}}
+			}
+			var m util.LockedMap[uint64, uint64]
+			if deep {
+				m, _ = util.NewDeepShardedMap[uint64, uint64]([]uint64{2, 3}, newLeaf)
+			} else {
+				m, _ = util.NewShardedMap[uint64, uint64](4, newLeaf)
+			}
+			var wg sync.WaitGroup
+			stored := false
+			wg.Add(1)
+			go func() {
+				defer wg.Done()
+				if op == "SetValue" {
+					stored = m.SetValue(7, 7)
+					return
+				}
+				created := false
+				err := m.GetOrCreate(7, func(_ uint64, cr bool) error { created = cr; return nil }, func() (uint64, error) { return 7, nil })
+				stored = err == nil && created
+			}()
+			select {
+			case <-entered:
+			case <-time.After(3 * time.Second):
+				close(resume)
+				wg.Wait()
+				continue
+			}
+			m.Close()
+			close(resume)
+			wg.Wait()
+			c.Eval(1)
+			keys := 0
+			m.Traverse(func(uint64, uint64) bool { keys++; return true })
+			_, found := m.Value(7)
+			if stored || found || m.Len() != 0 || keys != 0 {
+				c.Violation("C32:write-accepted-after-close", fmt.Sprintf("%s on a %s map: the writer got its shard, Close() ran to completion, the writer went on: accepted=%v, key found=%v, Len()=%d, keys=%d",
+					op, map[bool]string{true: "deep sharded", false: "sharded"}[deep], stored, found, m.Len(), keys), map[string]interface{}{"op": op, "deep": deep})
+			}
+		}
 	}
 }
